@@ -243,7 +243,11 @@ def run_job(spec):
         small = [i for i, t in enumerate(all_trees) if all("ab" not in p.split("/") for p in t)]
         for i, j in itertools.permutations(small, 2):
             a, b = paths_of(all_trees[i]), paths_of(all_trees[j])
-            if 0 < len(a ^ b) <= spec.get("dist", 1):
+            d = a ^ b
+            # distance in entries: an entry that changes its type (file <-> directory) is one
+            # change although it shows as a deleted and an added path
+            flip = len(d) == 2 and len({x.rstrip("/") for x in d}) == 1
+            if 0 < len(d) <= spec.get("dist", 1) or flip:
                 pairs.append((i, j, a, b))
         for pattern in spec["pats"]:
             try:
